@@ -137,8 +137,29 @@ def m_slice_len(ex, st, a, dst, callee):
     return [(bv(len(buf_of(ex, st, a[0]).items), 64), [], None)]
 
 
-T = r"(?:\(.*\)|Vec<u8>|PageId|PathEntry|usize|u64|EdgeRecord|nervusdb_api::EdgeKey)"
+def m_box_new_uninit(ex, st, a, dst, callee):
+    """`vec![a, b]` lowers to Box::<[T; N]>::new_uninit() + a write through the raw pointer + box_assume_init_into_vec_unsafe."""
+    ex.n += 1
+    slot = "$box%d" % ex.n
+    st.env[slot] = Struct("MaybeUninit", {0: Opaque("uninit"), 1: Struct("ManuallyDrop", {0: Struct("MaybeDangling", {0: PyVec()})})})
+    return [(Struct("Box", {0: Struct("Unique", {0: Ref(slot)})}), [], None)]
+
+
+def m_box_into_vec(ex, st, a, dst, callee):
+    b = a[0]
+    if not (isinstance(b, Struct) and b.name == "Box"):
+        return None
+    inner = deref_val(ex, st, b.fields[0].fields[0])
+    v = inner.fields[1].fields[0].fields[0]
+    if not isinstance(v, PyVec):
+        raise Unsupported("vec! buffer was not initialised as an array")
+    return [(PyVec(list(v.items)), [], None)]
+
+
+T = r"(?:\(.*\)|Vec<u8>|Vec<u32>|PageId|PathEntry|usize|u64|u32|EdgeRecord|I2eRecord|nervusdb_api::EdgeKey)"
 VEC_MODELS = [
+    (r"^Box::<\[.*; \d+\]>::new_uninit$", m_box_new_uninit),
+    (r"^std::boxed::box_assume_init_into_vec_unsafe::<", m_box_into_vec),
     (r"^<std::ops::Range<usize> as Iterator>::map::<", m_range_map),
     (r"^<std::iter::Map<std::ops::Range<usize>, \{closure@[^}]*\}> as Iterator>::collect::<Vec<", m_map_collect),
     (r"^Vec::<%s>::insert$" % T, m_vec_insert),
